@@ -919,6 +919,18 @@ fn state_engines(ctx: &Ctx, time_only: bool, tag: &str) -> Vec<Eng> {
             explore_sparse(&mut e2, Kind::Diff(m), 2, Mode::State, time_only, budget);
         }
     }
+    if !time_only {
+        // dense sweep of the gear ratio: one round of every kind for every ratio of the grid, both signs
+        for &r in &ratio_grid(if deep { 32 } else { 16 }, 7) {
+            if r < 0.01 || r > 100.0 {
+                continue;
+            }
+            for sign in [1.0f32, -1.0] {
+                explore(&mut e1, Kind::Gear(sign * r as f32), 1, Mode::State, time_only, budget);
+            }
+        }
+        e1.notes.push("gear ratio sweep: one round of every kind x 4 connection subsets for every ratio +-2^(i/16) (thorough 2^(i/32)) in [0.01, 100] plus 1 +- 2^-k".into());
+    }
     // states in the presence of a much newer command on one side
     for env in 1..=2u8 {
         CMD_ENV.store(env, std::sync::atomic::Ordering::SeqCst);
@@ -995,6 +1007,17 @@ fn command_engines(ctx: &Ctx, time_only: bool, tag: &str) -> Vec<Eng> {
     }
     for m in 0..4u8 {
         explore(&mut e1, Kind::Diff(m), d3, Mode::Command, time_only, budget);
+    }
+    if !time_only {
+        for &r in &ratio_grid(if deep { 32 } else { 16 }, 7) {
+            if r < 0.01 || r > 100.0 {
+                continue;
+            }
+            for sign in [1.0f32, -1.0] {
+                explore(&mut e1, Kind::Gear(sign * r as f32), 1, Mode::Command, time_only, budget);
+            }
+        }
+        e1.notes.push("gear ratio sweep: one round of every kind x 4 connection subsets for every ratio +-2^(i/16) (thorough 2^(i/32)) in [0.01, 100] plus 1 +- 2^-k".into());
     }
     TIME_BASE.store(1_500_000_000, std::sync::atomic::Ordering::SeqCst);
     for &k in &kinds {
